@@ -15,6 +15,11 @@ TRACKERS2 == FALSE
 \* NARROW = only add / remove / AddTracker / plain restart / the lock holder (no injected write failure, no started flag, no
 \* damaged records, no CleanDatabase, no counters): what the K = 3 configs of the writer-lock schedules can afford
 NARROW == FALSE
+\* RUNNING = an add may leave its torrent started also where FULL = FALSE (a running torrent writes its bitfield by id when
+\* it is closed: Session!RemClose); EARLY = the expected-fail variant of RemoveTorrent that gives the id back as soon as the
+\* record is deleted, before the removed torrent is closed (the code before the repair of round 4)
+RUNNING == FALSE
+EARLY == FALSE
 On == TRUE
 
 P0 == [st |-> [meta |-> TRUE], tiers |-> <<>>, cnt |-> 0]
@@ -24,17 +29,19 @@ P0 == [st |-> [meta |-> TRUE], tiers |-> <<>>, cnt |-> 0]
 UsedH  == {torrents[i].h : i \in DOMAIN torrents} \cup {o.h : o \in orphans} \cup {pc[c].h : c \in 1 .. K}
 FreshH == CHOOSE n \in 1 .. (2 * K + Cardinality(RANGE) + 2) : n \notin UsedH
 
-MCInit == InitWith([range |-> RANGE, k |-> K, atomic |-> ATOMIC, ret |-> FALSE, env |-> FALSE, sparse |-> SPARSE, split |-> SPLIT])
+MCInit == InitWith([range |-> RANGE, k |-> K, atomic |-> ATOMIC, ret |-> FALSE, env |-> FALSE, sparse |-> SPARSE, split |-> SPLIT,
+                   early |-> EARLY])
 
 Step(c) ==
     \/ \E id \in IDS : BeginAdd(c, id, IF FULL THEN FreshH ELSE 0, [explicit |-> TRUE, fail |-> IF STORAGE THEN "any" ELSE "none", p |-> P0])
     \/ \E out \in ports \cup {0} : AddTakeViol(c, out) = "" /\ AddTakeUpd(c, out)
     \/ \E out \in {"dup", "storage", "pass"} : At(c, "Add", "check") /\ AddCheckViol(c, out) = "" /\ AddCheckUpd(c, out)
     \/ \E ok \in (IF FULL /\ ~NARROW THEN BOOLEAN ELSE {TRUE}) : AddWrite(c, ok)
-    \/ \E stopped \in (IF FULL /\ ~NARROW THEN BOOLEAN ELSE {TRUE}) : AddInsert(c, stopped)
+    \/ \E stopped \in (IF (FULL /\ ~NARROW) \/ RUNNING THEN BOOLEAN ELSE {TRUE}) : AddInsert(c, stopped)
     \/ AddStarted(c)
     \/ \E id \in IDS : BeginRemove(c, id)
     \/ RemDetach(c) \/ RemRelease(c)
+    \/ \E wr \in BOOLEAN : RemClose(c, wr)
     \* (a failed record delete leaves a record without torrent - the environment's fault, not judged: only explored
     \*  where nothing depends on registry = database, i.e. never in these configs; the trace specification drives it)
     \/ RemDb(c, TRUE)
